@@ -108,7 +108,7 @@ class C15(Check):
     thorough_examples = 15000
     rule = (
         "cases: registration histories of up to 6 operations over a pool of 1..4 registries with prefix in {none, 'a', 'a.b'}: add(f), "
-        "add(f, name) (names incl. dotted ones and names colliding with other registrations), add_methods(f, g), view(V), view(V, prefix), "
+        "add(f, name) (names incl. dotted ones and names colliding with other registrations), add_methods(f, g), one decorator object obtained from add() applied to two functions, view(V), view(V, prefix), "
         "merge(r_i into r_j) (i != j, chains up to 3 levels; merged content is a snapshot), then attachment to a sync or async dispatcher via "
         "add_methods(registry) / add(f, name) / view(V) / one add_methods(...) call mixing registries, functions and Method objects in any argument order; functions return unique tokens, two functions share one __name__, views have public "
         "methods, a staticmethod, a method behind functools.lru_cache (callable, not a plain function), _private and __dunder__ methods and non-callable attributes; one view inherits its public methods from another, two sibling views inherit all of theirs from a common base. Oracle: a dict model name -> token built from "
@@ -121,7 +121,7 @@ class C15(Check):
         "registries are not merged into themselves; Method instances are passed only to the dispatcher's add_methods (a registry's add_methods(Method) bypasses prefixes by design)",
     ]
     trusted_base = ['dict model in checks/c15.py']
-    required_classes = ['op/add', 'op/add-name', 'op/add_methods', 'op/view', 'op/view-prefix', 'op/merge', 'merge/prefixed-into-prefixed',
+    required_classes = ['op/add', 'op/add-name', 'op/add_methods', 'op/add-decorator-reused', 'op/view', 'op/view-prefix', 'op/merge', 'merge/prefixed-into-prefixed',
                         'merge/depth>=2', 'replaced', 'attach/registry', 'attach/add', 'attach/view', 'attach/mixed', 'dispatcher/sync', 'dispatcher/async', 'view/inherited',
                         'view/siblings-sharing-inherited-methods', 'serving-while-registering/name-changed-between-probes']
 
@@ -133,6 +133,7 @@ class C15(Check):
             st.builds(lambda r, f: ['add', r, f], s_reg, s_fn),
             st.builds(lambda r, f, n: ['add-name', r, f, n], s_reg, s_fn, st.sampled_from(EXPLICIT)),
             st.builds(lambda r, f, g: ['add_methods', r, f, g], s_reg, s_fn, s_fn),
+            st.builds(lambda r, f, g: ['add-decorator-reused', r, f, g], s_reg, s_fn, s_fn),
             st.builds(lambda r, v: ['view', r, v], s_reg, s_view),
             st.builds(lambda r, v, p: ['view-prefix', r, v, p], s_reg, s_view, st.sampled_from(['user', 'a', 'u.v'])),
             st.builds(lambda i, j: ['merge', i, j], s_reg, s_reg),
@@ -160,6 +161,7 @@ class C15(Check):
              'attach': [['registry', 2]]},
             {'dispatcher': 'sync', 'registries': ['a', None], 'ops': [['view-prefix', 0, 4, 'user'], ['view-prefix', 0, 5, 'user'], ['add', 1, 0], ['view', 1, 5], ['view', 1, 4]],
              'attach': [['mixed', [['func', 1], ['method', 2, 'f0'], ['registry', 1], ['registry', 0]]]]},
+            {'dispatcher': 'sync', 'registries': ['a'], 'ops': [['add-decorator-reused', 0, 0, 1], ['add-decorator-reused', 0, 2, 5]], 'attach': [['registry', 0]]},
             {'dispatcher': 'async', 'registries': [None, 'a'], 'ops': [['view', 1, 2], ['add-name', 1, 1, 'get'], ['merge', 1, 0]], 'attach': [['registry', 0], ['view', 1]]},
         ]
 
@@ -203,6 +205,13 @@ class C15(Check):
                 for f in (op[2], op[3]):
                     put(models[r], join(prefixes[r], FUNC_NAMES[f]), f'tok-fn-{f}')
                 classes.add('op/add_methods')
+            elif k == 'add-decorator-reused':
+                # expose = registry.add()  ...  @expose def f  ...  @expose def g : ONE configured decorator object applied to two functions
+                expose = regs[r].add()
+                for f in (op[2], op[3]):
+                    expose(FUNCS[f])
+                    put(models[r], join(prefixes[r], FUNC_NAMES[f]), f'tok-fn-{f}')
+                classes.add('op/add-decorator-reused')
             elif k in ('view', 'view-prefix'):
                 p = op[3] if k == 'view-prefix' else None
                 regs[r].view(VIEWS[op[2]], prefix=p)
